@@ -154,3 +154,22 @@ neu("decline-conditions-merged", [
     (SRV, "            search_len -= 1;\n            if search_len <= 0 || vid == NIL_VERSION_ID {\n                // this should not happen in normal operation, so warn about it\n                log::warn!(\"rejecting snapshot for version {version_id}: version is too old or no such version\");\n                return Ok(());\n            }\n\n            // get the parent version ID\n            if let Some(parent) = txn.get_version(vid)? {\n                vid = parent.parent_version_id;\n            } else {\n                // this version does not exist; \"this should not happen\" but if it does,\n                // we don't need a snapshot earlier than the missing version.\n                log::warn!(\"rejecting snapshot for version {version_id}: newer versions have already been deleted\");\n                return Ok(());\n            }",
      "            search_len -= 1;\n            let parent = if search_len <= 0 || vid == NIL_VERSION_ID {\n                None\n            } else {\n                txn.get_version(vid)?\n            };\n            match parent {\n                Some(parent) => vid = parent.parent_version_id,\n                None => {\n                    log::warn!(\"rejecting snapshot for version {version_id}: too old, no such version, or history pruned\");\n                    return Ok(());\n                }\n            }"),
 ], "two decline exits of add_snapshot merged into one (same conditions)")
+
+_URG_MATCH = "                match snap_urgency {\n                    SnapshotUrgency::None => {}\n                    SnapshotUrgency::Low => {\n                        rb.append_header((SNAPSHOT_REQUEST_HEADER, \"urgency=low\"));\n                    }\n                    SnapshotUrgency::High => {\n                        rb.append_header((SNAPSHOT_REQUEST_HEADER, \"urgency=high\"));\n                    }\n                };"
+_URG_CALL = "                if let Some(value) = crate::api::snapshot_request_value(snap_urgency) {\n                    rb.append_header((SNAPSHOT_REQUEST_HEADER, value));\n                }"
+neu("urgency-header-helper-match", [
+    (AV, _URG_MATCH, _URG_CALL),
+    (API, "pub(crate) fn api_scope() -> Scope {", "/// Value of the X-Snapshot-Request header for an urgency, if any.\npub(crate) fn snapshot_request_value(urgency: taskchampion_sync_server_core::SnapshotUrgency) -> Option<&'static str> {\n    use taskchampion_sync_server_core::SnapshotUrgency;\n    match urgency {\n        SnapshotUrgency::None => None,\n        SnapshotUrgency::Low => Some(\"urgency=low\"),\n        SnapshotUrgency::High => Some(\"urgency=high\"),\n    }\n}\n\npub(crate) fn api_scope() -> Scope {"),
+], "X-Snapshot-Request value computed by a helper (match on the urgency)")
+neu("urgency-header-helper-thresholds", [
+    (AV, _URG_MATCH, _URG_CALL),
+    (API, "pub(crate) fn api_scope() -> Scope {", "/// Value of the X-Snapshot-Request header for an urgency, if any.\npub(crate) fn snapshot_request_value(urgency: taskchampion_sync_server_core::SnapshotUrgency) -> Option<&'static str> {\n    use taskchampion_sync_server_core::SnapshotUrgency;\n    if urgency >= SnapshotUrgency::High {\n        Some(\"urgency=high\")\n    } else if urgency >= SnapshotUrgency::Low {\n        Some(\"urgency=low\")\n    } else {\n        None\n    }\n}\n\npub(crate) fn api_scope() -> Scope {"),
+], "X-Snapshot-Request value computed by a helper (ordered thresholds, correct)")
+
+neu("option-sentinel-refactor", [
+    (SRV, "/// A server implementing the TaskChampion sync protocol.", "/// The \"no version\" sentinel as an Option.\nfn some_version(version_id: VersionId) -> Option<VersionId> {\n    if version_id == NIL_VERSION_ID {\n        None\n    } else {\n        Some(version_id)\n    }\n}\n\n/// A server implementing the TaskChampion sync protocol."),
+    (SRV, "            if client.latest_version_id == parent_version_id\n                || client.latest_version_id == NIL_VERSION_ID\n            {\n                GetVersionResult::NotFound\n            } else {\n                GetVersionResult::Gone\n            },",
+     "            match (\n                some_version(client.latest_version_id),\n                some_version(parent_version_id),\n            ) {\n                (None, _) => GetVersionResult::NotFound,\n                (Some(latest), Some(parent)) if latest == parent => GetVersionResult::NotFound,\n                (Some(_), Some(_)) => GetVersionResult::Gone,\n                (Some(_), None) => GetVersionResult::Gone,\n            },"),
+    (SRV, "        if client.latest_version_id != NIL_VERSION_ID\n            && parent_version_id != client.latest_version_id\n        {\n            log::debug!(\"add_version request rejected: mismatched latest_version_id\");\n            return Ok((\n                AddVersionResult::ExpectedParentVersion(client.latest_version_id),\n                SnapshotUrgency::None,\n            ));\n        }",
+     "        if let Some(latest_version_id) = some_version(client.latest_version_id) {\n            if parent_version_id != latest_version_id {\n                log::debug!(\"add_version request rejected: mismatched latest_version_id\");\n                return Ok((\n                    AddVersionResult::ExpectedParentVersion(latest_version_id),\n                    SnapshotUrgency::None,\n                ));\n            }\n        }"),
+], "NIL sentinel comparisons replaced by a helper returning Option and matches on it (equivalent in both operations)")
